@@ -29,14 +29,16 @@ VARIABLES l,
           ws03, ws12,           \* stream still well-structured and output in step with the parse
           fst, frest,           \* L1 framer state / remaining input (drift)
           insync,               \* L1 model still in step with the code
+          cnt, refaux, vrange,  \* C12: messages so far, derived fields of the uncorrupted stream's segments, victim byte range
           bad                   \* [c01, c02, c03, c12, drift |-> sequences of event indices]
 
-vars == <<l, in, pos, closed, ws03, ws12, fst, frest, insync, bad>>
+vars == <<l, in, pos, closed, ws03, ws12, fst, frest, insync, cnt, refaux, vrange, bad>>
 
 NoBad == [c01 |-> <<>>, c02 |-> <<>>, c03 |-> <<>>, c12 |-> <<>>, drift |-> <<>>]
 
 Init == /\ l = 1 /\ in = <<>> /\ pos = 0 /\ closed = FALSE /\ ws03 = FALSE /\ ws12 = FALSE
         /\ fst = R!St0 /\ frest = <<>> /\ insync = FALSE /\ bad = NoBad
+        /\ cnt = 0 /\ refaux = <<>> /\ vrange = <<0, 0>>
 
 Add(b, key, ok) == IF ok \/ Len(b[key]) >= MaxBad THEN b ELSE [b EXCEPT ![key] = Append(@, l)]
 
@@ -50,22 +52,30 @@ RunL1(st, rest, n) ==
 Reset(e) ==
     /\ in' = e.in /\ pos' = 0 /\ closed' = FALSE /\ ws03' = TRUE /\ ws12' = TRUE
     /\ fst' = R!St0 /\ frest' = e.in /\ insync' = TRUE /\ UNCHANGED bad
+    /\ cnt' = 0 /\ refaux' = e.ref_aux /\ vrange' = <<e.vstart, e.vend>>
 
+\* (\E x \in {X} binds x to the value of X once: inside an action TLC re-evaluates a LET-bound expression at every use,
+\*  and Classify and RunL1 each compute a CRC-24Q)
 OnMsg(e) ==
+  \E cls \in {IF pos < Len(in) THEN R!Classify(in, pos) ELSE [kind |-> "none", type |-> -1, raw |-> <<>>]} :
+  \E r1 \in {RunL1(fst, frest, Len(e.raw))} :
     LET n == Len(e.raw)
         inrange == n > 0 /\ pos + n <= Len(in)
         c02ok == ~closed /\ inrange /\ SubSeq(in, pos + 1, pos + n) = e.raw
-        cls == IF pos < Len(in) THEN R!Classify(in, pos) ELSE [kind |-> "none", type |-> -1, raw |-> <<>>]
         matches == e.raw = cls.raw /\ e.type = cls.type
         c01ok == \/ e.type < 0
                  \/ (matches /\ cls.kind = "frame")
                  \/ (n >= 5 /\ IsValidFrame(e.raw) /\ e.type = Type12(e.raw))
         w03 == ws03 /\ R!SegOK(cls, FALSE)
         w12 == ws12 /\ R!SegOK(cls, TRUE)
-        r1 == RunL1(fst, frest, n)
         l1ok == r1[3] /\ ~r1[1].done /\ r1[1].out = << [type |-> e.type, raw |-> e.raw] >>
+        \* C12: a segment outside the victim is delivered exactly as without the corruption - also the fields the
+        \* handler derives for it (timestamp, times, error text); refaux is what the uncorrupted stream produced
+        isVictim == pos < vrange[2] /\ pos + n > vrange[1]
+        auxok == refaux = <<>> \/ isVictim \/ cnt + 1 > Len(refaux) \/ e.aux = refaux[cnt + 1]
     IN /\ bad' = Add(Add(Add(Add(Add(bad, "c01", c01ok), "c02", c02ok),
-                         "c03", ~w03 \/ matches), "c12", ~w12 \/ matches), "drift", ~insync \/ l1ok)
+                         "c03", ~w03 \/ matches), "c12", ~w12 \/ (matches /\ auxok)), "drift", ~insync \/ l1ok)
+       /\ cnt' = cnt + 1 /\ UNCHANGED <<refaux, vrange>>
        /\ pos' = IF c02ok THEN pos + n ELSE pos
        /\ ws03' = (w03 /\ matches) /\ ws12' = (w12 /\ matches)
        /\ insync' = (insync /\ l1ok)
@@ -80,7 +90,7 @@ OnClose(e) ==
     IN /\ bad' = Add(Add(Add(Add(bad, "c02", c02ok), "c03", ~ws03 \/ c02ok), "c12", ~ws12 \/ c02ok),
                      "drift", ~insync \/ l1ok)
        /\ closed' = TRUE
-       /\ UNCHANGED <<in, pos, ws03, ws12, fst, frest, insync>>
+       /\ UNCHANGED <<in, pos, ws03, ws12, fst, frest, insync, cnt, refaux, vrange>>
 
 \* end of case: the output was closed exactly once, nothing crashed or hung
 OnEnd(e) ==
@@ -88,7 +98,7 @@ OnEnd(e) ==
         all == ok /\ pos = Len(in)
     IN
     /\ bad' = Add(Add(Add(bad, "c02", ok), "c03", ~ws03 \/ all), "c12", ~ws12 \/ all)
-    /\ UNCHANGED <<in, pos, closed, ws03, ws12, fst, frest, insync>>
+    /\ UNCHANGED <<in, pos, closed, ws03, ws12, fst, frest, insync, cnt, refaux, vrange>>
 
 \* single-frame decoding (C01 second sentence)
 OnGetMessage(e) ==
@@ -103,7 +113,7 @@ OnGetMessage(e) ==
         l1ok == exact /\ e.panic = "" =>
                    LET f == R!Finish(R!St0, e.buf).out[1] IN ~e.nilmsg /\ f.type = e.type /\ f.raw = e.raw
     IN /\ bad' = Add(Add(bad, "c01", ok), "drift", l1ok)
-       /\ UNCHANGED <<in, pos, closed, ws03, ws12, fst, frest, insync>>
+       /\ UNCHANGED <<in, pos, closed, ws03, ws12, fst, frest, insync, cnt, refaux, vrange>>
 
 Next == /\ l <= Len(Trace)
         /\ l' = l + 1
